@@ -37,6 +37,7 @@ EXPLANATION = (
     "transparency in both resolvers, R1.11 total visitors. Thorough tier adds a bounded comparison "
     "of the extracted grammar model with an independent Pratt parser on all token strings up to a "
     "length bound (model vs model; the repository is never executed)."
+    " R1.12 the exponent of `**` is used or the formula is refused: the term-set interpretation of the `**` overloads (C02's R2.6) including the branch where the exponent is not a positive integer. R1.4 also demands that the caller's formula string reaches the scanner under its own parameter name, never re-bound."
 )
 ASSUMPTIONS = [
     "Python semantics of if/while/return/raise and of list concatenation/insert as modelled",
